@@ -32,16 +32,17 @@ from gverif import tlc
 from gverif.common import SEED, die, ensure_repo
 from gverif.harness import Run
 
-INVS = ["Total", "MembersFaithful", "RuntimeFaithful", "LabelsFaithful", "ImportsFaithful", "EvMembersLast", "EventsAccepted", "FlagDiscipline"]
+# clauses that still have a known deviation (hazards init-local, label-inherit): Strict = TRUE must exhibit them
+INVS = ["MembersFaithful", "LabelsFaithful", "ImportsFaithful", "EvMembersLast", "EventsAccepted"]
 # invariant of Visitor.tla -> clause name used by the harness for the same demand
-CLAUSE_OF = {"Total": "total", "MembersFaithful": "members", "RuntimeFaithful": "runtime", "LabelsFaithful": "labels", "ImportsFaithful": "imports",
-             "EvMembersLast": "events-members-last", "EventsAccepted": "events-members-last", "FlagDiscipline": None}
+CLAUSE_OF = {"MembersFaithful": "members", "LabelsFaithful": "labels", "ImportsFaithful": "imports",
+             "EvMembersLast": "events-members-last", "EventsAccepted": "events-members-last"}
 # one TLC process explores all domains of a tier (Visitor.tla: QuickDomains / ThoroughDomainsA / ThoroughDomainsB);
 # the machine-wide number of TLC processes is bounded (gverif.tlc slots), so the plan keeps it small
 PLAN = {
-    "quick": {"checks": [("QuickDomains", 8, "3g")], "strict": [INVS], "vis_defects": [], "coverage": False, "three_spellings": ("all",)},
+    "quick": {"checks": [("QuickDomains", 8, "3g")], "strict": [INVS], "coverage": False, "three_spellings": ("all",)},
     "thorough": {"checks": [("ThoroughDomainsA", 10, "4g"), ("ThoroughDomainsB", 10, "4g")], "strict": [[i] for i in INVS],
-                 "vis_defects": ["PublicAsDocumented", "ExportedAsDocumented", "WildcardAsDocumented"], "coverage": True,
+                 "coverage": True,
                  "three_spellings": ("all", "deco", "attr3")},
 }
 ACTIONS = ["LeaveIf", "LeaveClass", "LeaveOther", "SkipLine", "VisitClassDef", "MakeProperty", "StashOverload", "AttachAccessor", "PlaceFunction",
@@ -56,7 +57,8 @@ def _w_replay(chunk):
     KNOWN = [e for e in load_findings("C01") if e.get("status") == "known"]
 
     out = []
-    for case, variant, mode in chunk:
+    sent_history = False
+    for pos, (case, variant, mode) in enumerate(chunk):
         try:
             res = R.replay_case(case, variant, mode)
         except Exception as exc:  # noqa: BLE001
@@ -65,7 +67,13 @@ def _w_replay(chunk):
             res = {"violations": [], "drift": [], "machinery": f"harness crashed on {case['prog']} ({mode}, spelling {variant}): {exc!r}\n{traceback.format_exc()}", "nontrivial": False, "summary": None}
         res["wf"] = bool(case["wf"])
         new = [sig for sig, _ in res["violations"] if not any(matches(e, sig) for e in KNOWN)]
-        out.append((case["prog"], variant, mode, list(case["hz"]), res, case if new else None))
+        stored = None
+        if new:
+            # what --replay needs: the case as TLC printed it and, once per chunk, the visits made before it in this (fresh)
+            # worker process - a visit must not depend on earlier visits, so a carried-over state is part of the failing input
+            stored = {"case": case, "history": None if sent_history else [(c["prog"], v, m) for c, v, m in chunk[:pos]]}
+            sent_history = True
+        out.append((case["prog"], variant, mode, list(case["hz"]), res, stored))
     return out
 
 
@@ -88,8 +96,8 @@ def _chunks(seq, n):
 
 # ---- main side --------------------------------------------------------------------------------------------
 def _absorb(run: Run, results, stats, domain):
-    for prog, variant, mode, hz, res, case in results:
-        ident = {"kind": "prog", "prog": prog, "variant": variant, "mode": mode, "domain": domain, "case": case}
+    for prog, variant, mode, hz, res, stored in results:
+        ident = {"kind": "prog", "prog": prog, "variant": variant, "mode": mode, "domain": domain, **(stored or {})}
         run.evaluated()
         if res["machinery"]:
             die("C01: " + res["machinery"])
@@ -100,6 +108,7 @@ def _absorb(run: Run, results, stats, domain):
         for h in hz:
             stats["hz:" + h] += 1
         stats["pairs"].update((l[0], l[1]) for l in prog)
+        stats["tc-guarded-programs"] += 1 if any(l[1] in ("TC", "tTC", "elifTC") for l in prog) else 0
         if res["nontrivial"]:
             run.nontrivial_case(json.dumps(prog))
         if res["summary"] and len(prog) >= 3 and len({l[0] for l in prog}) >= 3:
@@ -163,7 +172,7 @@ def main(tier: str, replay: str | None = None):
     only = os.environ.get("C01_ONLY", "")            # development aid: C01_ONLY=small restricts the run to the defect domains
     if only:
         plan = dict(plan, checks=[("DefectDomains", 4, "2g")])
-    with scratch("c01-main-") as tmpdir, ctx.Pool(nproc) as pool, ThreadPoolExecutor(max_workers=4 if tier == "quick" else 2) as tpool:
+    with scratch("c01-main-") as tmpdir, ctx.Pool(nproc, maxtasksperchild=1) as pool, ThreadPoolExecutor(max_workers=4 if tier == "quick" else 2) as tpool:
         # -- code -> spec: event traces of real files (does not depend on TLC: start at once) ---------------------
         files = corpus_files(tier)
         corpus_async = [pool.apply_async(_w_corpus, (ch,)) for ch in _chunks(files, 6)]
@@ -205,8 +214,6 @@ def main(tier: str, replay: str | None = None):
         if plan["coverage"]:
             jobs[tpool.submit(tlc.run, "Visitor", "Visitor_check.cfg", workers=2, constants=dict(LEN=2, DEPTH=1, NAMES='{"f", "g"}', ALPHA="AlphaAll", EMIT="FALSE"), timeout=900, heap="1g", coverage=True)] = ("coverage", "all", None)
         jobs[tpool.submit(tlc.run, "Visibility", "Visibility_check.cfg", workers=1, timeout=600, heap="1g")] = ("vis", "check", None)
-        for inv in plan["vis_defects"]:
-            jobs[tpool.submit(tlc.run, "Visibility", "Visibility_defect.cfg", workers=1, constants={"INV": inv}, timeout=600, heap="1g", dump_trace=True)] = ("visdefect", inv, None)
         # -- recorded traces -> TLC (VisitorTrace.tla accepts or rejects each one with the acceptor shared with Visitor.tla) --
         corpus_results = [x for a in corpus_async for x in a.get()]
         print(f"  [{time.time() - t0:5.1f}s] corpus sweep done ({len(corpus_results)} files)", flush=True)
@@ -260,9 +267,9 @@ def main(tier: str, replay: str | None = None):
                 run.add_tlc(res)
                 if len(res.cases) < 1000:
                     die(f"C01: Visibility.tla enumerated only {len(res.cases)} rows")
-                for h, pred in (("empty-all", "public"), ("no-parent", "exported"), ("no-parent", "wildcard")):
-                    if not any(h in row["hz"] and row["impl"][pred] != row["doc"][pred] for row in res.cases):
-                        die(f"C01: Visibility.tla no longer exhibits the known deviation {h} of is_{pred}")
+                for cls in ("empty-all", "no-parent"):      # the rows behind the two fixed deviations are still enumerated
+                    if not any(cls in row["class"] for row in res.cases):
+                        die(f"C01: Visibility.tla enumerates no row of class {cls}")
                 for ch in _chunks(res.cases, 200):
                     rows_async.append(pool.apply_async(_w_rows, (ch,)))
             elif kind == "trace":
@@ -276,11 +283,6 @@ def main(tier: str, replay: str | None = None):
                     stats["traces-by-tlc:" + ("accepted" if v == "ok" else v)] += 1
                     if (v == "ok") != (not r_["protocol"]) or (v != "ok" and v not in r_["protocol"]):
                         die(f"C01: the acceptor of EventProtocol.tla says {v!r} on the trace of {r_['path']}, the harness's protocol check says {r_['protocol']}")
-            else:
-                tlc.must(res, allow_violations=True)
-                run.add_tlc(res)
-                if label not in res.violated:
-                    die(f"C01: with Strict = TRUE Visibility.tla no longer exhibits the known deviation behind {label}")
         # -- collect ---------------------------------------------------------------------------------------------------
         print(f"  [{time.time() - t0:5.1f}s] all TLC jobs done, {len(pending)} replay chunks submitted", flush=True)
         for a in pending:
@@ -295,7 +297,7 @@ def main(tier: str, replay: str | None = None):
                 res = R.replay_case(case, variant, "visit")
                 if res["machinery"]:
                     die("C01 (counterexample replay): " + res["machinery"])
-                _absorb(run, [(case["prog"], variant, "visit", case["hz"], res, case)], stats, "strict:" + inv)
+                _absorb(run, [(case["prog"], variant, "visit", case["hz"], res, {"case": case, "history": []})], stats, "strict:" + inv)
                 hit = hit or any(sig["clause"] == clause for sig, _ in res["violations"])
             stats["strict-counterexamples"] += 1
             if clause and not hit:
@@ -305,11 +307,11 @@ def main(tier: str, replay: str | None = None):
         print(f"  [{time.time() - t0:5.1f}s] rows and corpus done", flush=True)
     run.exhaustive = True
     # vacuity on the binding side: every statement form, every hazard class and the crash path were reached by replayed programs
-    if len(stats["pairs"]) < (12 if only else 43):
+    if len(stats["pairs"]) < (12 if only else 46):
         die(f"C01: the replayed programs use only {len(stats['pairs'])} statement forms: vacuous")
     stats["pairs"] = len(stats["pairs"])
     run.extra["c01"] = {k: v for k, v in sorted(stats.items())}
-    for need in ("hz:guard-reset", "hz:guard-else", "hz:guard-nested", "hz:init-local", "hz:init-overload", "hz:label-inherit"):
+    for need in ("hz:init-local", "hz:label-inherit", "tc-guarded-programs"):
         if not stats[need]:
             die(f"C01: no replayed program with {need}: vacuous")
     print("C01 stats:", json.dumps(run.extra["c01"]))
@@ -329,7 +331,7 @@ def _absorb_rows(run: Run, results, stats):
         for pred, got in res["real"].items():
             want, model = row["doc"][pred], row["impl"][pred]
             if got != want:
-                cause = "+".join(sorted(h for h in row["hz"] if (h == "empty-all" and pred == "public") or (h == "no-parent" and pred in ("exported", "wildcard")))) or "none"
+                cause = "+".join(sorted(h for h in row["class"] if (h == "empty-all" and pred == "public") or (h == "no-parent" and pred in ("exported", "wildcard")))) or "none"
                 stats[f"viol:vis-{pred}:{cause}"] += 1
                 run.violation({"part": "visibility", "clause": "visibility", "pred": pred, "cause": cause},
                               f"is_{pred if pred != 'wildcard' else 'wildcard_exposed'} = {got} but the documented table gives {want} for {key}", {"kind": "row", "row": row})
@@ -371,4 +373,7 @@ def _replay_one(run: Run, case: dict, stats):
     else:
         # the stored case carries the spec's expected values (reference, Impl state, events) as TLC printed them
         c = case["case"]
-        _absorb(run, [(c["prog"], case["variant"], case["mode"], c["hz"], R.replay_case(c, case["variant"], case["mode"]), c)], stats, case.get("domain", "replay"))
+        for prog, v, m in case.get("history") or []:
+            # the visits that preceded the case in its worker process (only visited: their verdicts were given in their own right)
+            R.visit_only(prog, v, m)
+        _absorb(run, [(c["prog"], case["variant"], case["mode"], c["hz"], R.replay_case(c, case["variant"], case["mode"]), {"case": c, "history": case.get("history")})], stats, case.get("domain", "replay"))
